@@ -188,7 +188,9 @@ def dataTypeIsOptional (v : RVec) : Bool :=
 def constraintsOf (v : RVec) : Cons :=
   let isObjectStr := v.ty == .object && !(v.nullsrc == .typelist)
   if v.ty == .array || (v.fc && !isObjectStr) then
-    (if v.constr then .keyword else .empty)
+    -- the TypedDict field class keeps the base `ConstraintsBase`, which only knows `uniqueItems`:
+    -- the keyword is dropped there (it is not rendered by that kind anyway)
+    (if v.constr && v.kind != .td then .keyword else .empty)
   else .none
 
 /-- `get_object_field` -/
